@@ -2,6 +2,7 @@
 """Regenerates MANIFEST.json from the table below (kept in one place so it stays valid)."""
 import json, sys
 ALL = ["C%02d" % i for i in range(1, 21)]
+T="property-based testing (proptest) with a differential oracle: "
 CHECKS = {
  "C01": dict(
   technique="property-based testing (proptest structured generator + byte/structure-aware mutators) with differential comparison against an independent wire codec and SHA-256d",
@@ -23,6 +24,37 @@ CHECKS = {
   text="Every history over the mutation API x sighash/sign calls up to depth 4 (quick) / 5 (thorough) over a 14-letter alphabet is enumerated, plus long random histories; after every step all fourteen flag values x input indices are compared between the live object (on a clone) and Transaction::from_bytes(tx.to_bytes()). This is the level the property asks for: it quantifies over finite interleavings.",
   note="Trusted: the library's own parser/serialiser as the 'fresh copy' (that is the relation the property states); clones copy the cache. Depth beyond 5 only sampled.",
   ref="DESIGN.md §3 C04"),
+ "C05": dict(
+  technique=T+"reference secp256k1 ECDSA / RFC 6979 / ECDH on num-bigint; negative checks by metamorphic input changes",
+  text="Keys and nonces from the boundary set, messages of every small length, both hashes and all five signing entry points; deterministic signatures must equal an independent RFC 6979 implementation bit for bit, every signature must verify under an independent verifier and the library's verifiers, be low-S, and fail for a changed message, hash or key; ECDH must equal the reference shared x coordinate in both directions.",
+  note="Trusted: refimpl::secp (RFC 6979 secp256k1 vectors, sign/verify/recover round trips), refimpl::hashes. sign_with_random_k uses OS entropy: relation checks only.",
+  ref="DESIGN.md §3 C05"),
+ "C06": dict(
+  technique=T+"reference strict DER codec, compact layout and secp256k1 key recovery; round-trip oracles over produced and synthetic signatures",
+  text="Produced signatures and synthetic (r, s) pairs with every DER integer length and every sighash flag value forced as final byte, all recovery ids and compression markers, plus eleven malformed-DER classes; all encodings must round-trip, recovery must return the signer's key in the recorded form, malformed DER must be rejected.",
+  note="Trusted: refimpl::codec (strict DER), refimpl::secp::recover. Recovery ids 2/3 are not required to recover (unreachable for real signatures).",
+  ref="DESIGN.md §3 C06"),
+ "C07": dict(
+  technique=T+"reference SEC1 / HASH160 / Base58Check / WIF codecs; round trips; rejection of generated corruptions",
+  text="Keys x compression x every prefix byte, hashes with 0..20 leading zero bytes, six corruption operators on addresses and WIF strings, eight classes of candidate public keys; derived values must equal the reference, valid encodings must be accepted, corruptions rejected, from_bytes must accept exactly curve points, get_unlocking_script exactly the address's own key.",
+  note="Trusted: refimpl::secp, refimpl::codec, refimpl::hashes (published vectors). WIF version byte and hybrid SEC1 forms not asserted.",
+  ref="DESIGN.md §3 C07"),
+ "C08": dict(
+  technique=T+"reference BIP32 implementation (validated against BIP32 test vectors 1-3); rejection of generated corruptions",
+  text="Seeds of standard and non-standard lengths, boundary child indices, paths of depth up to 8 (one of depth 40/255 per run) in every textual form; every derivation step is compared field by field and as xprv/xpub strings with the reference, private vs public derivation are cross-checked, corrupted strings must be rejected.",
+  note="Trusted: refimpl::bip32, refimpl::secp, refimpl::hashes. IL >= n branches unreachable by generation.",
+  ref="DESIGN.md §3 C08"),
+ "C11": dict(
+  technique=T+"reference BIE1 construction (reference EC multiplication, SHA-512, AES-128-CBC, HMAC-SHA256); exhaustive single-bit tampering for short messages",
+  text="Key pairs, message lengths over every residue mod 16, both inclusion modes; ciphertext and derived keys must be byte-identical to the reference BIE1 construction, decrypt must invert (also after serialisation), every single-bit corruption after the magic (exhaustive for four message lengths, sampled otherwise) and every wrong key must yield an error.",
+  note="Trusted: refimpl::{secp, hashes, aes}. Magic-byte flips excluded (not in the statement).",
+  ref="DESIGN.md §3 C11"),
+ "C12": dict(
+  technique=T+"reference BSM digest (magic + compact-size prefixes, SHA-256d) and RFC 6979 signature; negative checks by generated corruptions",
+  text="Keys x compression x every prefix, messages crossing the 253 and 65536 length-prefix boundaries; (r, s) must equal the reference signature over the reference digest, the header byte must encode the form, all four verify entry points must accept for every prefix and after the compact round trip, and reject corrupted messages, signatures and foreign addresses.",
+  note="Trusted: refimpl::{secp, hashes, wire::varint_encode}.",
+  ref="DESIGN.md §3 C12"),
+
  "C10": dict(
   technique="property-based testing (proptest) with a differential oracle: the original SignatureHash algorithm re-implemented from the wire fields",
   text="Generated-input search over transactions, all input indices, the six legacy flags and subscripts with code separators sprinkled at every nesting depth; the preimage must be byte-identical to an independent implementation of the original algorithm (code separators removed token-wise, scripts blanked, NONE/SINGLE rewriting, ANYONECANPAY isolation).",
